@@ -303,6 +303,51 @@ def fold_cases():
     return out
 
 
+def case_cases():
+    """two-branch case expressions whose conditions and VALUES range over columns, comparisons and the literals
+    true / false / null / 1 / 0: every shape a `case` simplification could special-case (a case that "is" its
+    condition, its negation, a constant ...), evaluated on rows where the condition is NULL"""
+    I = lambda n: ("lit", "int", n)
+    B = lambda b: ("lit", "bool", b)
+    N = ("lit", "null", None)
+    a, b, c = ("col", 0), ("col", 1), ("col", 2)
+    out = []
+    for c1 in (("bin", "Gt", a, I(1)), ("bin", "Eq", a, b), a):
+        for v1 in (B(True), B(False), N, I(1)):
+            for c2 in (B(True), ("bin", "Gt", b, I(0))):
+                for v2 in (B(True), B(False), N, I(0)):
+                    out.append(("case", [(c1, v1), (c2, v2)]))
+        for v1 in (B(True), B(False), N):
+            out.append(("case", [(c1, v1)]))
+            out.append(("un", "Not", ("case", [(c1, v1), (B(True), B(not v1[2]) if v1[1] == "bool" else B(False))])))
+    return out
+
+
+def cond_cases(r, nrand):
+    """boolean-rooted expressions used as a `filter` condition: comparisons with the literal on either side at the
+    boundary values of the domain, their negations and conjunctions, plus a sample of the (parent, position, child)
+    triples whose parent yields a truth value"""
+    I = lambda n: ("lit", "int", n)
+    a, b, c = ("col", 0), ("col", 1), ("col", 2)
+    out = []
+    lits = [I(1), I(0), ("un", "Neg", I(2)), ("lit", "float", (1, 1)), I(2)]
+    for k, op in enumerate(("Lt", "Lte", "Gt", "Gte", "Eq", "Ne")):
+        for j, l in enumerate(lits):
+            out.append(("bin", op, l, a))
+            out.append(("bin", op, a, l))
+            if (j + k) % 2 == 0:
+                out.append(("un", "Not", ("bin", op, l, a)))
+                out.append(("bin", "And", ("bin", op, l, a), ("bin", "Lte", a, I(2))))
+                out.append(("bin", op, l, ("bin", "Mul", a, I(1))))
+                out.append(("bin", "Or", ("bin", op, l, a), ("bin", op, b, l)))
+    out += [("bin", "Eq", a, ("lit", "null", None)), ("bin", "Ne", ("lit", "null", None), a), ("in", a, I(0), I(2)), ("in", a, None, I(1)),
+            ("bin", "And", ("in", a, I(0), I(2)), ("bin", "Lt", I(0), b))]
+    truthy = ("Eq", "Ne", "Gt", "Lt", "Gte", "Lte", "And", "Or", "Not", "in")
+    tri = [t for key, t in all_triples() if key[0] in truthy]
+    r.shuffle(tri)
+    return out + tri[:nrand]
+
+
 def null_cases():
     """the literal null as an operand of every operator kind at every position (three-valued logic,
     null propagation, the syntactic null test, open range bounds), alone and one level down"""
